@@ -11,8 +11,32 @@ claim("C07", "proof",
       "unknown tags carry no payload).",
       "CBMC function+loop contracts (dfcc) on real C code; bounded exhaustive symbolic buffers vs spec decoder", "DESIGN.md section 6 / C07")
 
+claim("C01", "model_checking",
+      "Bounded, exhaustive per shape: for every generated shape (tag string, address, string/blob lengths: 325 shapes quick, ~4500 thorough "
+      "incl. all tag strings of length <=2 over the 17 symbols, all of length 3 over class representatives, random strings up to 40 tags) "
+      "and for ALL numeric payload bit patterns, MIDI/blob bytes and capacities, the argument-array and varargs constructors produce exactly "
+      "spec_encode() (an executable OSC 1.0 specification written from the statement), the length function agrees, the validator accepts, and "
+      "argument_string/narguments/type/argument/iterator return the original types and bit-identical values. Not a proof: CBMC loop "
+      "contracts cannot carry the recursive encoding spec, so tag strings are enumerated, not quantified.",
+      "Trusted: CBMC + SAT back end, its va_list/memset models, spec/osc_spec.h, LP64, -DNDEBUG. String bytes fixed pattern except in the "
+      "_sym shapes; varargs 'f' NaNs excluded. rtosc_avmessage: see level text once its obligation is listed in evidence.",
+      "CBMC bounded verification of the real rtosc.c against an executable spec, shapes enumerated, payloads symbolic", "DESIGN.md section 6 / C01")
+claim("C02", "model_checking",
+      "Same shape family as C01 and bundle family as C08, with the destination an exact-size heap object of SYMBOLIC capacity 0..need+8: "
+      "no write outside [buffer,buffer+len) (CBMC pointer checks), does-not-fit => returns 0 and zero-filled, fits => exact size, NULL "
+      "buffer => size needed. Exhaustive over capacities and payloads inside each shape; bounded over shapes.",
+      "Trusted: as C01. Callers with literal capacities (RtData::reply/broadcast) are not covered by a proof.",
+      "CBMC bounded verification, exact-size destination objects, symbolic capacity", "DESIGN.md section 6 / C02")
+claim("C08", "model_checking",
+      "Bounded, exhaustive per element sequence (0..3 elements from 6 element kinds incl. bundles nested to depth 2; payload bytes, all 2^64 "
+      "time tags, capacity symbolic): rtosc_bundle output == spec_bundle byte for byte; bundle_p/elements/fetch/size/timetag/"
+      "message_length read everything back exactly; messages are never mistaken for bundles. One known finding is listed "
+      "(nested bundle element in an exact-size buffer).",
+      "Trusted: CBMC + SAT back end, its va_list/memcpy/strcpy/strcmp models, spec/osc_spec.h. 8 elements / depth 3-4 not explored.",
+      "CBMC bounded verification of rtosc_bundle* against spec_bundle", "DESIGN.md section 6 / C08")
+
 _later = "check not built yet in this revision (planned, see DESIGN.md section 6)"
-for k in ("C01", "C02", "C03", "C05", "C06", "C08", "C14", "C16", "C17", "C18", "C19"):
+for k in ("C03", "C05", "C06", "C14", "C16", "C17", "C18", "C19"):
     NA[k] = _later
 NA["C04"] = "Dispatch, the perfect-hash construction and the callbacks are C++ over std::vector<Port>, std::string, std::function with range-for/lambdas; CBMC's C++ front end rejects the TU and has no contract syntax in C++ mode; the only C ingredient, rtosc_match, is decided under C05."
 NA["C09"] = "walk_ports/walk_ports_recurse/bundle_foreach/port_is_enabled take Ports&, iterate std::vector, call std::function ports and snprintf into the shared buffer; no C-extractable core carries the statement."
